@@ -18,7 +18,7 @@ hook_commits = [l.split()[0] for l in subprocess.run(
 
 man = {
     "version": 1,
-    "setup_cmd": "cd /verif/harness && cargo build --offline --release && cd /verif && for f in spec/[A-Z]*.tla; do "
+    "setup_cmd": "cd /verif/harness && cargo build --offline --release && cd /verif/spec && for f in [A-Z]*.tla; do "
                  "tla-sany \"$f\" >/dev/null 2>&1 || { echo \"SANY failed: $f\"; exit 1; }; done",
     "hooks": {
         "guard": "sle_verif",
